@@ -109,9 +109,11 @@ def run_case(case, ctx):
         items = gen.batch_sequence(rng, len(items), items[0].shape[1], size=(kk // 2 + 2, 3 * kk), shift_p=0.5, dup_p=0.0, integer_p=0.0, const_p=0.0)
         ctx.count("nndvi_histories_with_batches_shorter_than_k")
     int_first = False
-    if zoo.kind(name) == "batch" and rng.random() < 0.15:
+    sd0_ = np.std(np.asarray(items[0], dtype=float), axis=0) if zoo.kind(name) == "batch" else None
+    if zoo.kind(name) == "batch" and rng.random() < 0.15 and bool(np.all(sd0_ > 1e-6 * (np.abs(np.asarray(items[0])).max(axis=0) + 1e-300))):
         # the first reference holds whole numbers and arrives with an integer dtype; everything after it is floating point
-        items[0] = np.round(np.asarray(items[0]) / (float(np.std(items[0])) or 1.0) * 3)
+        # (per feature: centred and scaled to a few units, so that no column degenerates)
+        items[0] = np.round((np.asarray(items[0]) - np.mean(items[0], axis=0)) / sd0_ * 3)
         int_first = True
         ctx.count("integer_typed_first_reference")
     k = zoo.kind(name)
